@@ -21,6 +21,8 @@ CHECKS = {
    "variant x storage x life point x pending set x schedule; each pending request is confirmed parked before Close; Close is held between its broadcast and the per-stream close until every waiter woke and re-parked (and the symmetric order); afterwards every pending and every new request must complete, the mutex must be free and the Directory empty."),
  "C08": ("llmon", "exploration", "Go race detector + panic capture + snapshot/monotonicity oracles over seeded stress schedules of the real muxer",
    "One writer and 4-31 readers cycling through every URL kind with seeded delays at the hook points, then Close while readers are active; race reports of the monitor's own process are parsed and de-duplicated; every 200 playlist is validated as a consistent snapshot; per-reader playlist sequences checked for monotone evolution; bodies of the same URI compared across readers."),
+ "C20": ("qmon", "exploration", "systematic schedule enumeration of the real queue at its hooked preemption points + porcupine linearizability check of every recorded history + race detector stress",
+   "Producer scripts over {push, waitUntilSizeIsBelow(0|1)} x consumer pull scripts x cancellation are executed on the real clientSegmentQueue; at the two unlock->wait windows and at operation boundaries every choice of which actor advances is enumerated depth-first (exhaustive for the stated bounds); each history is checked against a FIFO model with porcupine and the quiescent wake-up oracle (blocked although the condition holds); then free-running stress under the race detector."),
  "C14": ("plmon", "exploration", "runtime monitoring: generated playlist values pushed through the real Marshal/Unmarshal, compared field by field and against an independent second decoder",
    "Every subset of optional fields of every tag is enumerated, plus random legal values; each value is marshaled, unmarshaled, re-marshaled, decoded by the independent m3u8x reader and decoded again from four syntactic variants."),
  "C15": ("plmon", "exploration", "runtime monitoring: strict-grammar oracle over encoder output and served playlists, post-condition oracle over decoder results under seeded mutation and native go fuzzing",
@@ -59,6 +61,7 @@ m = {
    {"name": "muxmon", "path": "/verif/cmd/vmon/mux.go", "serves_properties": [k for k,v in CHECKS.items() if v[0]=="muxmon"], "kind_free_text": "sequential runtime monitor of the real Muxer with reference-model oracles (internal/muxrun, internal/oracle)"},
    {"name": "plmon", "path": "/verif/cmd/vmon/playlist.go", "serves_properties": [k for k,v in CHECKS.items() if v[0]=="plmon"], "kind_free_text": "playlist codec monitor + native fuzz targets (internal/plx, internal/plfuzz, internal/m3u8x)"},
    {"name": "llmon", "path": "/verif/cmd/vmon/c06.go", "serves_properties": ["C06","C07","C08"], "kind_free_text": "concurrent muxer monitors (c06.go step-controlled, c07.go forced Close schedules, c08.go race-detector stress; internal/hx hook dispatcher, internal/racelog)"},
+   {"name": "qmon", "path": "/verif/cmd/vmon/c20.go", "serves_properties": ["C20"], "kind_free_text": "segment queue schedule enumerator + porcupine + stress"},
    {"name": "stomon", "path": "/verif/cmd/vmon/storage.go", "serves_properties": ["C17"], "kind_free_text": "storage lock-step model monitor"},
  ],
  "checks": checks,
